@@ -80,7 +80,7 @@ LAYOUTS_1D = ["C", "strided", "column", "reversed"]
 def lay3(a, layout):
     """(base, view): view equals `a`, base owns the memory"""
     if layout == "C":
-        b = np.ascontiguousarray(a)
+        b = np.array(a, order="C", copy=True)  # always a new object: the generator's arrays are never handed out themselves
         return b, b
     if layout == "F":
         b = np.asfortranarray(a)
@@ -101,7 +101,7 @@ def lay3(a, layout):
 
 def lay1(a, layout):
     if layout == "C":
-        b = np.ascontiguousarray(a)
+        b = np.array(a, order="C", copy=True)  # always a new object: the generator's arrays are never handed out themselves
         return b, b
     if layout == "strided":
         b = np.empty(2 * a.size, dtype=a.dtype)
@@ -582,6 +582,40 @@ def make_series(var, nprs, tier, entry, dtype, times_kind, conv=False, ties=Fals
     return arrs, [dO, dH, dF]
 
 
+def reassignment(deb, rng):
+    """a valid re-assignment of window settings [(attribute, value)] (validators and step <= length respected)"""
+    opts = []
+    if getattr(deb, "running_window_mode_over_years_of_cm_future", False):
+        L = deb.running_window_over_years_of_cm_future_length
+        S = deb.running_window_over_years_of_cm_future_step_length
+        opts.append([("running_window_over_years_of_cm_future_length", 1 if L != 1 else 3), ("running_window_over_years_of_cm_future_step_length", 1)])
+        opts.append([("running_window_over_years_of_cm_future_length", max(L, 3)), ("running_window_over_years_of_cm_future_step_length", 3 if S != 3 else 1)])
+        opts.append([("running_window_mode_over_years_of_cm_future", False)])
+    elif hasattr(deb, "running_window_mode_over_years_of_cm_future"):
+        opts.append([("running_window_mode_over_years_of_cm_future", True), ("running_window_over_years_of_cm_future_length", 1),
+                     ("running_window_over_years_of_cm_future_step_length", 1)])
+    if getattr(deb, "running_window_mode", False) and hasattr(deb, "running_window_length"):
+        L, S = deb.running_window_length, deb.running_window_step_length
+        opts.append([("running_window_length", L + 30)])
+        opts.append([("running_window_length", max(L, 91)), ("running_window_step_length", 91 if S != 91 else 31)])
+    elif hasattr(deb, "running_window_length") and type(deb).__name__ not in ("ISIMIP",):
+        opts.append([("running_window_mode", True), ("running_window_length", 91), ("running_window_step_length", 91)])
+    if not opts:
+        return []
+    # the year-window options first in line: they are the ones whose helper object is built from two settings
+    return opts[0] if (getattr(deb, "running_window_mode_over_years_of_cm_future", False) and rng.random() < 0.5) else rng.choice(opts)
+
+
+def clone_from_settings(deb):
+    """a fresh instance constructed from the CURRENT values of all attrs fields of `deb`"""
+    import attrs
+
+    kw = {a.name: getattr(deb, a.name) for a in attrs.fields(type(deb)) if a.init}
+    with warnings.catch_warnings():
+        warnings.simplefilter("ignore")
+        return type(deb)(**kw)
+
+
 def is_store_error(ex):
     """numpy refuses a write into a read-only array ("assignment destination is read-only", "output array is read-only",
     "sort array is read-only" ...); a compiled routine that merely refuses to *read* a read-only buffer says
@@ -758,9 +792,61 @@ def protocol(name, var, factory, randomised, entry, layout, dtype, times, tier, 
     if why:
         problems.append((f"{name}: instance state drifts between calls: {why}", {**case, "what": "instance state changed", "detail": why}))
 
+    # ---- buffer reuse: the caller overwrites the CONTENTS of the very same array objects (data and time) and calls again;
+    #      the result must be the one a fresh instance gives on these values (nothing may be remembered per array object)
+    if not conv and not masked and (tarr[0] is not None) and rng.random() < (0.6 if getattr(deb, "running_window_mode", False) else 0.25):
+        try:
+            shift = rng.choice([45, 100, 200])
+            dts2 = [np.array([d_ + (np.timedelta64(shift, "D") if isinstance(d_, np.datetime64) else datetime.timedelta(days=shift)) for d_ in t_], dtype=t_.dtype)
+                    for t_ in dts]
+            inp_r = Inputs(arrs, tarr, "C" if rng.random() < 0.5 else layout, entry)
+            call(deb, inp_r, entry, seed)
+            for v_, new_ in zip(inp_r.views, arrs2):
+                v_[...] = new_
+            for v_, new_ in zip(inp_r.tviews, dts2):
+                v_[...] = new_
+            out_r = call(deb, inp_r, entry, seed)
+            out_rf = call(factory(), Inputs(arrs2, dts2, "C", entry), entry, seed)
+        except Exception as ex:  # noqa: BLE001
+            if is_store_error(ex):
+                raise
+            out_r = None
+            res.notes.append(f"{name}: buffer-reuse sequence raised {type(ex).__name__}: {str(ex)[:60]}")
+        if out_r is not None:
+            res.extra["buffer_reuse_cases"] = res.extra.get("buffer_reuse_cases", 0) + 1
+            if out_r.shape != out_rf.shape or out_r.tobytes() != out_rf.tobytes():
+                nd = int((~((out_r == out_rf) | (np.isnan(out_r) & np.isnan(out_rf)))).sum()) if out_r.shape == out_rf.shape else -1
+                problems.append((f"{name}: second call with the same array objects holding new contents (data replaced, dates shifted by {shift} days) differs from a "
+                                 f"fresh instance on the same values ({nd} values)", {**case, "what": "remembers earlier arguments", "shift_days": shift}))
+
     copied = conv or (masked and all(m.any() for m in masks))  # astype copies; filled copies iff a cell is masked
     ent = ("apply:%d:%d" % (int(copied), int(times != "none"))) if entry == "apply" else ("loc:%d" % int(times != "none"))
-    trace_jobs.append((case, model_cfg_tokens(deb, ent), items, drawn, guards))
+    model_tokens = model_cfg_tokens(deb, ent)  # the configuration the recorded run 1 was made under
+
+    # ---- settings re-assignment: "the result depends only on the settings": assign other window settings to the USED instance,
+    #      build a FRESH instance with the very same current field values, same seed -> same output (apply re-derives)
+    if entry == "apply" and not conv:
+        changes = reassignment(deb, rng)
+        if changes:
+            try:
+                for a_, v_ in changes:
+                    setattr(deb, a_, v_)
+                fresh = clone_from_settings(deb)
+                out_u = call(deb, Inputs(arrs, tarr, "C", entry, masks=masks), entry, seed)
+                out_f = call(fresh, Inputs(arrs, tarr, "C", entry, masks=masks), entry, seed)
+            except Exception as ex:  # noqa: BLE001
+                if is_store_error(ex):
+                    raise
+                out_u = out_f = None
+                res.notes.append(f"{name}: settings re-assignment {changes} raised {type(ex).__name__}: {str(ex)[:60]}")
+            if out_u is not None:
+                res.extra["reassignment_cases"] = res.extra.get("reassignment_cases", 0) + 1
+                if out_u.shape != out_f.shape or out_u.tobytes() != out_f.tobytes():
+                    nd = int((~((out_u == out_f) | (np.isnan(out_u) & np.isnan(out_f)))).sum()) if out_u.shape == out_f.shape else -1
+                    problems.append((f"{name}: after assigning {changes} the used instance and a fresh instance with identical settings give different output "
+                                     f"({nd} values) under the same np.random.seed", {**case, "what": "depends on the instance's history", "assigned": [list(c_) for c_ in changes]}))
+
+    trace_jobs.append((case, model_tokens, items, drawn, guards))
     nz = int(np.isnan(out1).sum()) if np.issubdtype(out1.dtype, np.floating) else 0
     res.count((name, entry, layout, case["dtype"], times, bool(ties)), True,
               sample={**case, "n_out": int(out1.size), "nan_out": nz, "probe_calls": REC.calls, "readonly": ro_note is None})
@@ -955,6 +1041,82 @@ def instance_cases(rng, n, res, mismatches):
             mismatches.append({"op": "instance-" + what, "case": case, "impl": bad, "model": got[:200]})
 
 
+def digest_job(name, entry, tier):
+    """output digest of one seeded call; everything derives from the configuration name (no hash(), no global state)"""
+    import hashlib
+    import zlib
+
+    var, factory, _ = configurations()[name]
+    sd = zlib.crc32(f"{name}/{entry}".encode())
+    nprs = np.random.RandomState(sd)
+    arrs, dts = make_series(var, nprs, tier, entry, np.float64, "date")
+    inp = Inputs(arrs, dts, "C", entry)
+    try:
+        out = call(factory(), inp, entry, sd % (2**31))
+        return hashlib.sha256(np.ascontiguousarray(out).tobytes()).hexdigest()[:24]
+    except Exception as ex:  # noqa: BLE001
+        return f"raised {type(ex).__name__}"
+
+
+def child_main():
+    """entry of the child interpreters of cross_process_cases: prints {job: digest}"""
+    import json
+
+    jobs = json.loads(sys.stdin.read())
+    out = {}
+    for name, entry, tier in jobs:
+        out[f"{name}/{entry}"] = digest_job(name, entry, tier)
+    sys.stdout.write("\nDIGESTS " + json.dumps(out) + "\n")
+
+
+def cross_process_cases(rng, tier, res, problems, mismatches, boost):
+    """the result may depend on settings, arguments and numpy's generator state — not on the interpreter process: the same
+    seeded calls in two child interpreters with different PYTHONHASHSEED (string-hash randomisation, i.e. set/dict-of-set
+    iteration order) and in this process must give identical output digests"""
+    import json
+    import os
+    import subprocess
+
+    cfgs = configurations()
+    names = [n for n in cfgs if rng_guards(cfgs[n][1]())]
+    det = [n for n in cfgs if n not in names]
+    names += det if (tier != "quick" or boost) else rng.sample(det, 4)
+    jobs = [[n, "apply_location", tier] for n in names] + [[n, "apply", tier] for n in names if tier != "quick" or rng.random() < 0.25]
+    procs = []
+    for hs in ("1", "2", "31337"):
+        env = dict(os.environ, PYTHONHASHSEED=hs)
+        p = subprocess.Popen([sys.executable, "-c", "from harness import c12; c12.child_main()"], cwd=C.VERIF, env=env, stdin=subprocess.PIPE,
+                             stdout=subprocess.PIPE, stderr=subprocess.PIPE, text=True)
+        p.stdin.write(json.dumps(jobs))
+        p.stdin.close()
+        procs.append((hs, p))
+    here = {f"{n}/{e}": digest_job(n, e, t) for n, e, t in jobs}
+    results = {"this process": here}
+    for hs, p in procs:
+        out = p.stdout.read()
+        err = p.stderr.read()
+        p.wait()
+        line = [ln for ln in out.split("\n") if ln.startswith("DIGESTS ")]
+        if not line:
+            mismatches.append({"op": "cross-process", "case": {"PYTHONHASHSEED": hs}, "impl": "child interpreter produced no digests: " + err[-300:], "model": ""})
+            continue
+        results[f"PYTHONHASHSEED={hs}"] = json.loads(line[0][len("DIGESTS "):])
+    n_cmp = 0
+    for key in here:
+        vals = {w: r.get(key) for w, r in results.items()}
+        n_cmp += 1
+        if len(set(vals.values())) > 1:
+            name, entry = key.split("/")
+            problems.append((f"{name}: the same seeded {entry} call gives different output in different interpreter processes (only PYTHONHASHSEED differs): {vals}",
+                             {"config": name, "entry": entry, "what": "depends on the interpreter process", "digests": vals, "tier": tier,
+                              "how": "np.random.seed(crc32(name/entry)); data from RandomState(crc32(name/entry)); see harness.c12.digest_job"}))
+    res.extra["cross_process_digests_compared"] = n_cmp
+    res.extra["cross_process_interpreters"] = len(results)
+    for _ in range(n_cmp):
+        res.cov["traces_validated_against_impl"] += 0
+    res.count(("cross-process", len(jobs)), True)
+
+
 def qdm_sticky_probe(res):
     """what the code does when running_window_length is assigned after construction (recorded, not a C12 violation)"""
     import scipy.stats
@@ -1035,6 +1197,7 @@ def run(tier, res, force_search=False):
         "PARTIAL: proof over an alias model; numpy's actual view/copy behaviour and the absence of hidden writes inside numpy/scipy routines are assumptions validated by probes, not proved",
         "the alias model covers the serial path; parallel=True is exercised only for seed-determinism (one worker, re-seeded repeat) — grids through the pool are C05; metrics/evaluate are out of scope",
         "the randomised configurations are compared after re-seeding numpy's global generator (np.random.seed)",
+        "cross-process clause: the seeded calls are repeated in child interpreters that differ only in PYTHONHASHSEED (runtime-only: no theorem — the model has no notion of an interpreter process)",
         "hook IBICUS_VERIF=1: _verif_mark_unassigned fills freshly allocated result buffers (whitelisted write site, modelled as a store into an own buffer)",
     ]
 
@@ -1128,6 +1291,7 @@ def run(tier, res, force_search=False):
         if boost:
             n_inst *= 3
         instance_cases(rng, n_inst, res, mismatches)
+        cross_process_cases(rng, tier, res, problems, mismatches, boost)
         if not qdm_sticky_probe(res):
             mismatches.append({"op": "qdm-sticky", "case": {}, "impl": str(res.extra["qdm_cdf_threshold_after_assignment"]), "model": "Props.C12.qdm_cdf_threshold_sticky"})
     except Exception as ex:  # noqa: BLE001
@@ -1177,6 +1341,21 @@ def replay(data):
         return 2
     import os
 
+    if fi.get("what") == "depends on the interpreter process":
+        import json
+        import subprocess
+
+        job = [[fi["config"], fi["entry"], fi.get("tier", "quick")]]
+        digs = {"this process": digest_job(*job[0])}
+        for hs in ("1", "2", "31337"):
+            p = subprocess.run([sys.executable, "-c", "from harness import c12; c12.child_main()"], cwd=C.VERIF, env=dict(os.environ, PYTHONHASHSEED=hs),
+                               input=json.dumps(job), capture_output=True, text=True)
+            line = [ln for ln in p.stdout.split("\n") if ln.startswith("DIGESTS ")]
+            digs[f"PYTHONHASHSEED={hs}"] = list(json.loads(line[0][8:]).values())[0] if line else "no output"
+        bad = len(set(digs.values())) > 1
+        print("REPRODUCED:" if bad else "replay:", digs)
+        print("replay:", "violation reproduced" if bad else "not reproduced")
+        return 1 if bad else 0
     os.environ["VERIF_SEED"] = str(fi.get("verif_seed", 0))
     cfgs = configurations()
     name = fi["config"]
